@@ -62,10 +62,10 @@ func (t *gotr) fail(n ast.Node, why string) {
 
 var gtTypes = map[string]string{
 	"int": "Int", "uint": "Nat", "bool": "Bool", "error": "Option GoErr", "*big.Int": "Int", "Op": "GOp",
-	"Program": "List GOp", "*Program": "List GOp", "Chain": "List Int", "[]*big.Int": "List Int", "[]int": "List Int", "[]Op": "List GOp", "[][]Op": "List (List GOp)", "map[uint]uint": "(Nat → Nat)",
+	"Program": "List GOp", "*Program": "List GOp", "Chain": "List Int", "[]*big.Int": "List Int", "[]int": "List Int", "[]Op": "List GOp", "[][]Op": "List (List GOp)", "map[uint]uint": "(Nat → Nat)", "Sum": "List GTerm", "Term": "GTerm", "FixedWindow": "Nat",
 }
 
-var gtElem = map[string]string{"Program": "Op", "*Program": "Op", "Chain": "*big.Int", "[]*big.Int": "*big.Int", "[]int": "int", "[]Op": "Op", "[][]Op": "[]Op"}
+var gtElem = map[string]string{"Program": "Op", "*Program": "Op", "Chain": "*big.Int", "[]*big.Int": "*big.Int", "[]int": "int", "[]Op": "Op", "[][]Op": "[]Op", "Sum": "Term"}
 
 // functions of internal/bigint translated by c19.go (AC/Gen/BigintFns.lean; pure, never panic)
 var gtBigint = map[string]struct {
@@ -76,6 +76,7 @@ var gtBigint = map[string]struct {
 	"Equal": {[]string{"*big.Int", "*big.Int"}, "bool"}, "EqualInt64": {[]string{"*big.Int", "int"}, "bool"},
 	"IsZero": {[]string{"*big.Int"}, "bool"}, "IsNonZero": {[]string{"*big.Int"}, "bool"},
 	"Pow2": {[]string{"uint"}, "*big.Int"}, "Ones": {[]string{"uint"}, "*big.Int"},
+	"Extract": {[]string{"*big.Int", "uint", "uint"}, "*big.Int"},
 }
 
 // math/big value-producing methods (the receiver's old value is irrelevant) and observers
@@ -175,6 +176,9 @@ func (t *gotr) expr(e ast.Expr) (string, string) {
 		if ty == "Op" && (v.Sel.Name == "I" || v.Sel.Name == "J") {
 			return s + "." + v.Sel.Name, "int"
 		}
+		if ty == "FixedWindow" && v.Sel.Name == "K" {
+			return s, "uint" // the struct has the single field K: it is passed as that field
+		}
 	case *ast.SliceExpr:
 		a, aty := t.expr(v.X)
 		if _, ok := gtElem[aty]; ok && !v.Slice3 {
@@ -268,9 +272,37 @@ func (t *gotr) expr(e ast.Expr) (string, string) {
 		elts := []string{}
 		etys := []string{}
 		for _, el := range v.Elts {
+			if _, kv := el.(*ast.KeyValueExpr); kv {
+				continue
+			}
 			s, ety := t.expr(el)
 			elts = append(elts, s)
 			etys = append(etys, ety)
+		}
+		if ty == "Term" && len(v.Elts) == 2 {
+			var dd, ee string
+			good := true
+			for _, el := range v.Elts {
+				kv, ok := el.(*ast.KeyValueExpr)
+				if !ok {
+					good = false
+					break
+				}
+				val, vty := t.expr(kv.Value)
+				switch Src(t.fset, kv.Key) {
+				case "D":
+					dd = val
+					good = good && vty == "*big.Int"
+				case "E":
+					ee = val
+					good = good && vty == "uint"
+				default:
+					good = false
+				}
+			}
+			if good && dd != "" && ee != "" {
+				return "(GTerm.mk " + dd + " " + ee + ")", "Term"
+			}
 		}
 		if ty == "map[uint]uint" && len(elts) == 0 {
 			return "(fun (_ : Nat) => (0 : Nat))", ty
@@ -361,6 +393,14 @@ func (t *gotr) call(v *ast.CallExpr) (string, string) {
 		case "new":
 			if len(v.Args) == 1 && Src(t.fset, v.Args[0]) == "big.Int" {
 				return "(bNewInt 0)", "*big.Int"
+			}
+		case "max", "min":
+			if len(v.Args) == 2 {
+				a, aty := t.expr(v.Args[0])
+				b, bty := t.expr(v.Args[1])
+				if aty == "int" && bty == "int" {
+					return "(" + f.Name + " " + a + " " + b + ")", "int"
+				}
 			}
 		case "append":
 			if len(v.Args) == 2 {
@@ -839,6 +879,16 @@ func (t *gotr) stmt(s ast.Stmt, ind string) string {
 		}
 	case *ast.ExprStmt:
 		if c, ok := v.X.(*ast.CallExpr); ok {
+			if sel, ok := c.Fun.(*ast.SelectorExpr); ok && sel.Sel.Name == "SortByExponent" && len(c.Args) == 0 {
+				if id, ok := sel.X.(*ast.Ident); ok {
+					if ty, ok := t.lookup(id.Name); ok && ty == "Sum" {
+						// sort.Slice by exponent, in place: a primitive (the insertion sort of the model)
+						return ind + id.Name + " := (sumSortByExponent " + id.Name + ")\n"
+					}
+				}
+			}
+		}
+		if c, ok := v.X.(*ast.CallExpr); ok {
 			if id, ok := c.Fun.(*ast.Ident); ok && id.Name == "panic" {
 				return ind + "goPanic\n"
 			}
@@ -1116,6 +1166,15 @@ func (t *gotr) loop(s ast.Stmt, rest []ast.Stmt, ind string, tail string) string
 								fuel = append(fuel, "((bBitLen "+x+") + 1)")
 								return
 							}
+						}
+					}
+				}
+				// h > 0 with h an int local that the body decreases: fuel h
+				if be, ok := e.(*ast.BinaryExpr); ok && be.Op == token.GTR && Src(t.fset, be.Y) == "0" {
+					if id, ok := be.X.(*ast.Ident); ok {
+						if ty, ok := t.lookup(id.Name); ok && ty == "int" {
+							fuel = append(fuel, id.Name)
+							return
 						}
 					}
 				}
